@@ -1,0 +1,61 @@
+//go:build verif
+
+package plugin
+
+// Read-only accessors and thin wrappers for the external verification harness
+// (build tag "verif"). Nothing here changes behaviour.
+
+import (
+	"crypto/tls"
+
+	"github.com/hashicorp/go-plugin/internal/verifhook"
+	"github.com/hashicorp/yamux"
+)
+
+// VerifSetPoint configures a verifhook point (see internal/verifhook).
+func VerifSetPoint(name string, fn func()) { verifhook.Set(name, fn) }
+
+// VerifProtocolVersion exposes the server-side version negotiation.
+func VerifProtocolVersion(opts *ServeConfig) (int, Protocol, PluginSet) {
+	return protocolVersion(opts)
+}
+
+// VerifLogEntry is the exported view of a parsed hclog JSON line.
+type VerifLogEntry struct {
+	Message string
+	Level   string
+	KV      []interface{}
+}
+
+// VerifParseJSON exposes parseJSON.
+func VerifParseJSON(input []byte) (*VerifLogEntry, error) {
+	e, err := parseJSON(input)
+	if err != nil {
+		return nil, err
+	}
+	return &VerifLogEntry{Message: e.Message, Level: e.Level, KV: flattenKVPairs(e.KVPairs)}, nil
+}
+
+// VerifKilled reports whether Kill had to force-kill the process.
+func (c *Client) VerifKilled() bool { return c.killed() }
+
+// VerifTLSConfig returns the client's effective TLS configuration.
+func (c *Client) VerifTLSConfig() *tls.Config { return c.config.TLSConfig }
+
+// VerifBroker returns the broker of a gRPC protocol client.
+func (c *GRPCClient) VerifBroker() *GRPCBroker { return c.broker }
+
+// VerifBroker returns the broker of a gRPC protocol server.
+func (s *GRPCServer) VerifBroker() *GRPCBroker { return s.broker }
+
+// VerifBroker returns the broker of a net/rpc protocol client.
+func (c *RPCClient) VerifBroker() *MuxBroker { return c.broker }
+
+// VerifNewMuxBroker builds a MuxBroker over an existing yamux session.
+func VerifNewMuxBroker(s *yamux.Session) *MuxBroker { return newMuxBroker(s) }
+
+// VerifServerListener exposes serverListener (unix socket + rmListener).
+var VerifServerListener = serverListener
+
+// VerifGenerateCert exposes generateCert.
+var VerifGenerateCert = generateCert
